@@ -57,11 +57,21 @@ def gen_case(rng, index, tier):
         allowed=['-f', '-i', '-v', 'none', '--trash-dir', '--home-fallback'])
     if optclass == '-i':
         stdin = rng.choice(['y\n', 'y\n', 'Y\n', 'n\n', ''])
+    comps = []
+    if arg.get('lexdir') and optclass != '-i' and rng.random() < 0.7:
+        # a second argument of the same command, in the directory that the
+        # lexical reading of 'ld/lnk/../x' names: what trash-put remembers
+        # about one argument must not leak into the other
+        comp = c01.add_companion(L, rng, arg, 1, tag, used)
+        if comp:
+            comp['first'] = rng.random() < 0.5
+            comps.append(comp)
     c01.add_stale(L, rng, [arg], index, p=0.25)
     c01.add_partial_trash_dirs(L, rng)
     case = L.desc()
     case['env'] = dict(case['env'], **env_extra)
     case['args'] = [arg]
+    case['companions'] = comps
     case['opts'] = opts
     case['stdin'] = stdin
     case['optclass'] = optclass
@@ -90,8 +100,13 @@ def run_case(case):
             spelled if spelled.startswith('/') else os.path.join(cwd, spelled), os.F_OK)
         declined = prompted and not case.get('stdin', '').lower().startswith('y')
         s0 = w.snapshot()
+        comps = case.get('companions') or []
         argv = [world.subst(o, w.R) for o in case['opts']] + ['--'] + \
-            [world.subst(a['spelling'], w.R)]
+            [c['spelling'] for c in comps if c['first']] + \
+            [world.subst(a['spelling'], w.R)] + \
+            [c['spelling'] for c in comps if not c['first']]
+        if comps:
+            obs['with_companion_argument'] = 1
         r = run.run(w, 'put', argv, stdin=case.get('stdin', '').encode())
         s1 = w.snapshot()
         if r.timeout or r.audit_ok() is False:
@@ -100,7 +115,7 @@ def run_case(case):
             return out
         out['features'] += ['sp:' + a['class'], 'kind:' + a['kind'],
                             'opt:' + case['optclass']]
-        des = [a['rel']]          # the link itself is what is named (C18)
+        des = [a['rel']] + [c['rel'] for c in comps]   # the link itself is what is named (C18)
         A = putcheck.analyze(s0, s1, des)
         o = A.outcomes[0]
         st = o['state']
@@ -196,8 +211,13 @@ def run_case(case):
                          r=r2.brief())
                 else:
                     obs['restored_ok'] = 1
+                    # (a companion argument's own pair stays, of course)
+                    cpairs = set()
+                    for oc in A.outcomes[1:]:
+                        cpairs.update(x for x in (oc.get('payload'), oc.get('info')) if x)
                     pairs_left = [k for k, x, y in d if x is None and
-                                  (putcheck.is_info(k) or putcheck.is_payload_root(k))]
+                                  (putcheck.is_info(k) or putcheck.is_payload_root(k))
+                                  and k not in cpairs]
                     if pairs_left:
                         viol('restore-left-pair', left=pairs_left)
         out['nontrivial'] = len(r.events) > 0
